@@ -28,12 +28,16 @@ type BuildConfig struct {
 	Name   string
 	GOARCH string
 	Tags   string
+	GOOS   string // default linux
 }
 
 var (
 	cfgDefault = BuildConfig{Name: "linux/amd64", GOARCH: "amd64"}
 	cfg386     = BuildConfig{Name: "linux/386", GOARCH: "386"}
 	cfgDebug   = BuildConfig{Name: "linux/amd64+debug", GOARCH: "amd64", Tags: "debug"}
+	cfgWindows = BuildConfig{Name: "windows/amd64", GOARCH: "amd64", GOOS: "windows"}
+	cfgDarwin  = BuildConfig{Name: "darwin/arm64", GOARCH: "arm64", GOOS: "darwin"}
+	cfgPlan9   = BuildConfig{Name: "plan9/amd64", GOARCH: "amd64", GOOS: "plan9"}
 )
 
 // Program is the loaded, type-checked module in SSA form.
@@ -79,11 +83,18 @@ func loadEnv(cfg BuildConfig) []string {
 		"GOSUMDB=off",
 		"GOTOOLCHAIN=local",
 		"GOWORK=off",
-		"GOOS=linux",
+		"GOOS="+goosOf(cfg),
 		"GOARCH="+cfg.GOARCH,
 		"CGO_ENABLED=0",
 	)
 	return env
+}
+
+func goosOf(cfg BuildConfig) string {
+	if cfg.GOOS != "" {
+		return cfg.GOOS
+	}
+	return "linux"
 }
 
 // Load type-checks the whole module under repo and builds SSA.
